@@ -22,6 +22,7 @@ THEOREM_OF = {
     "no_panic": "C18_exactly_once (at most one completion per channel: no send on / close of a closed channel)",
     "bounded_by_timeout": "never blocking beyond its time-out (runtime; explored, not proved)",
     "canceled_never_delivered": "C18_canceled_never_delivered",
+    "builder": "C18_build_round / C18_canceled_before_build (buildWithLimit round: fetched entries only, priorities, consecutive ids, cancelled skipped)",
     "harness": "harness",
 }
 
@@ -133,7 +134,7 @@ def main(tier, replay):
     classes = {k[6:]: n for k, n in stats.items() if k.startswith("class:")}
     cov.update(evaluations=stats.get("calls", 0) + stats.get("scenarios", 0),
                distinct_nontrivial=stats.get("distinct", 0),
-               rule="seeded scenarios of 10 classes (plain / forward / streamfail / cancel / close / staleepoch / multiconn / rebreak / sendpanic / staleasync): 1..72 concurrent callers, "
+               rule="seeded scenarios of 16 classes (plain / forward / streamfail / cancel / close / staleepoch / multiconn / rebreak / sendpanic / staleasync / builder / recvpanic / failpanic / twopools / nonbatch / asyncclose): 1..72 concurrent callers, "
                     "4 request types, priorities 0..16, 1..5 forwarded hosts, 1..4 connections, concurrency limit, batch policies, server side delay / reorder / "
                     "duplicate / unknown-id / never-answered responses, stream kills, server restarts, injected Send/Recv/stream-creation failures, cancellation, "
                     "time-outs, client / address close during traffic, sync calls with 30 s time-outs and SendRequestAsync calls without deadline (must complete in the drain phase), "
@@ -144,6 +145,8 @@ def main(tier, replay):
                returns={k[4:]: n for k, n in stats.items() if k.startswith("ret:")},
                model_step_histogram={k[5:]: n for k, n in stats.items() if k.startswith("step:")},
                outdated_responses=stats.get("outdated", 0),
+               builder_rounds_compared=stats.get("rounds", 0), table_snapshots_compared=stats.get("table_checks", 0),
+               recv_loop_panics_replayed=stats.get("recv_panics_expected", 0) + stats.get("step:FailPanic", 0),
                oracle_failures=len(oracle_fails), trace_rejections=len(rejects),
                partial="proof covers the in-flight table logic; gRPC, goroutine scheduling and timers are explored on the implementation only")
     rc = v.finish()
